@@ -10,9 +10,15 @@ import os, re, sys
 REPO = os.environ.get("VERIF_REPO", "/repo")
 HERE = os.path.dirname(os.path.abspath(__file__))
 OUT = os.path.join(HERE, "shadow", "flacenc")
+OUT_PLAIN = os.path.join(HERE, "shadow", "flacenc-plain")
 
 
-def generate(repo=REPO, out=OUT):
+def generate(repo=REPO, out=None, shuttle=True):
+    """shuttle=True: manifest for the guard-on build (adds the shuttle dependency);
+    shuttle=False: the same sources and dependencies, nothing added (guard-off build of the
+    working tree at `repo`, used by seamsim so that VERIF_REPO can point at a scratch copy)."""
+    if out is None:
+        out = OUT if shuttle else OUT_PLAIN
     src = open(os.path.join(repo, "Cargo.toml")).read()
     lines = src.splitlines()
     res = []
@@ -38,7 +44,8 @@ def generate(repo=REPO, out=OUT):
     text = "\n".join(res) + "\n"
     text += '\n[lib]\nname = "flacenc"\npath = "%s/src/lib.rs"\n' % repo
     # extra dependency for the guarded seam
-    text = text.replace("[dependencies]\n", '[dependencies]\nshuttle = "0.9.3"\n', 1)
+    if shuttle:
+        text = text.replace("[dependencies]\n", '[dependencies]\nshuttle = "0.9.3"\n', 1)
     text += "\n[workspace]\n"
     os.makedirs(out, exist_ok=True)
     p = os.path.join(out, "Cargo.toml")
@@ -49,4 +56,5 @@ def generate(repo=REPO, out=OUT):
 
 
 if __name__ == "__main__":
-    print(generate())
+    print(generate(shuttle=True))
+    print(generate(shuttle=False))
